@@ -214,3 +214,7 @@ Proof.
   split; [done|]. split; [lia|]. split; [lia|].
   split_and!; vm_compute; reflexivity.
 Qed.
+
+(* the atomic steps of the scheduler LTS are single critical sections in the code (table-level check) *)
+Lemma lock_granularity_pf : granularity_ok access_table = true.
+Proof. vm_compute. reflexivity. Qed.
